@@ -62,3 +62,180 @@ Qed.
 
 Lemma zrange_len n : zlen (zrange n) = Z.max 0 n.
 Proof. unfold zlen. rewrite zrange_length. lia. Qed.
+
+(* ---- permutations of a 3-d tensor: (1,2,0) followed by (2,0,1) is the identity ------------------- *)
+Lemma map_zget_id {A} (l : list A) d : map (fun j => zget l j d) (zrange (zlen l)) = l.
+Proof.
+  unfold zrange, zlen. rewrite Nat2Z.id, map_map.
+  apply nth_ext with (d := d) (d' := d); [rewrite map_length, seq_length; reflexivity|].
+  intros i Hi. rewrite map_length, seq_length in Hi. rewrite nth_map_seq by exact Hi.
+  unfold zget. rewrite Nat2Z.id. reflexivity.
+Qed.
+
+Lemma in_bounds3 a b c idx : in_bounds [a; b; c] idx ->
+  exists x y z, idx = [x; y; z] /\ 0 <= x < a /\ 0 <= y < b /\ 0 <= z < c.
+Proof.
+  intros H. inversion H as [|? ? x ? Hx H1]; subst. inversion H1 as [|? ? y ? Hy H2]; subst.
+  inversion H2 as [|? ? z ? Hz H3]; subst. inversion H3; subst. exists x, y, z. auto.
+Qed.
+
+Lemma permute_120_data {A} (d : A) a b c (dt : list A) :
+  t_permute d [1; 2; 0] (T [a; b; c] dt) =
+  Ok (T [b; c; a]
+        (map (fun j => let idx := unravel [b; c; a] j in
+                       zget dt (ravel [a; b; c] [zget idx 2 0; zget idx 0 0; zget idx 1 0]) d)
+             (zrange (prodZ [b; c; a])))).
+Proof. reflexivity. Qed.
+
+Lemma permute_201_data {A} (d : A) a b c (dt : list A) :
+  t_permute d [2; 0; 1] (T [b; c; a] dt) =
+  Ok (T [a; b; c]
+        (map (fun j => let idx := unravel [a; b; c] j in
+                       zget dt (ravel [b; c; a] [zget idx 1 0; zget idx 2 0; zget idx 0 0]) d)
+             (zrange (prodZ [a; b; c])))).
+Proof. reflexivity. Qed.
+
+Theorem permute_roundtrip3 {A} (d : A) a b c (dt : list A) :
+  0 < a -> 0 < b -> 0 < c -> zlen dt = a * b * c ->
+  (t1 <- t_permute d [1; 2; 0] (T [a; b; c] dt) ;; t_permute d [2; 0; 1] t1) = Ok (T [a; b; c] dt).
+Proof.
+  intros Ha Hb Hc Hl. rewrite permute_120_data. cbn [bind]. rewrite permute_201_data.
+  f_equal. f_equal.
+  assert (Hp1 : pos_dims [a; b; c]) by (repeat constructor; assumption).
+  assert (Hp2 : pos_dims [b; c; a]) by (repeat constructor; assumption).
+  assert (EN : prodZ [a; b; c] = zlen dt) by (cbn [prodZ fold_right]; lia).
+  assert (EN2 : prodZ [b; c; a] = prodZ [a; b; c]) by (cbn [prodZ fold_right]; lia).
+  transitivity (map (fun j => zget dt j d) (zrange (zlen dt))); [|apply map_zget_id]. rewrite <- EN.
+  apply map_ext_in. intros j Hj. apply in_map_iff in Hj. destruct Hj as (k & <- & Hk). apply in_seq in Hk.
+  assert (Hr : 0 <= Z.of_nat k < prodZ [a; b; c]) by lia.
+  cbv zeta.
+  pose proof (unravel_in_bounds _ _ Hp1 Hr) as Hib.
+  destruct (in_bounds3 _ _ _ _ Hib) as (x & y & z & Eidx & Hx & Hy & Hz).
+  rewrite Eidx.
+  change (zget [x; y; z] 1 0) with y. change (zget [x; y; z] 2 0) with z. change (zget [x; y; z] 0 0) with x.
+  assert (Hib2 : in_bounds [b; c; a] [y; z; x]) by (constructor; [assumption|constructor; [assumption|constructor; [assumption|constructor]]]).
+  pose proof (ravel_bounds _ _ Hib2) as Hrb.
+  rewrite zget_map_zrange by exact Hrb. cbv zeta.
+  rewrite (unravel_ravel _ _ Hib2).
+  change (zget [y; z; x] 2 0) with x. change (zget [y; z; x] 0 0) with y. change (zget [y; z; x] 1 0) with z.
+  rewrite <- Eidx. rewrite (ravel_unravel _ _ Hp1 Hr). reflexivity.
+Qed.
+
+(* moving a leading dimension of size 1 to the end does not move data *)
+Theorem permute_120_unit {A} (d : A) b c (dt : list A) :
+  0 < b -> 0 < c -> zlen dt = b * c ->
+  t_permute d [1; 2; 0] (T [1; b; c] dt) = Ok (T [b; c; 1] dt).
+Proof.
+  intros Hb Hc Hl. rewrite permute_120_data. f_equal. f_equal.
+  assert (Hp : pos_dims [b; c; 1]) by (repeat constructor; lia).
+  assert (EN : prodZ [b; c; 1] = zlen dt) by (cbn [prodZ fold_right]; lia).
+  transitivity (map (fun j => zget dt j d) (zrange (zlen dt))); [|apply map_zget_id]. rewrite <- EN.
+  apply map_ext_in. intros j Hj. apply in_map_iff in Hj. destruct Hj as (k & <- & Hk). apply in_seq in Hk.
+  assert (Hr : 0 <= Z.of_nat k < prodZ [b; c; 1]) by lia.
+  cbv zeta. pose proof (unravel_in_bounds _ _ Hp Hr) as Hib.
+  destruct (in_bounds3 _ _ _ _ Hib) as (y & z & x & Eidx & Hy & Hz & Hx).
+  rewrite Eidx.
+  change (zget [y; z; x] 2 0) with x. change (zget [y; z; x] 0 0) with y. change (zget [y; z; x] 1 0) with z.
+  f_equal. rewrite <- (ravel_unravel _ _ Hp Hr), Eidx. cbn [ravel prodZ fold_right]. lia.
+Qed.
+
+(* ---- reductions ----------------------------------------------------------------------------- *)
+Lemma mmap_ok {A B} (f : A -> res B) l ys : mmap f l = Ok ys -> Forall2 (fun x y => f x = Ok y) l ys.
+Proof.
+  revert ys. induction l as [|a l IH]; intros ys H; simpl in H.
+  - injection H as <-. constructor.
+  - destruct (f a) eqn:Ea; simpl in H; [|discriminate]. destruct (mmap f l) eqn:El; simpl in H; [|discriminate].
+    injection H as <-. constructor; [exact Ea | apply IH; reflexivity].
+Qed.
+
+Lemma Forall2_zget {B} (P : Z -> B -> Prop) n (ys : list B) d :
+  Forall2 P (zrange n) ys -> forall o, 0 <= o < n -> P o (zget ys o d).
+Proof.
+  unfold zrange. intros H o Ho.
+  assert (G : forall (l : list nat) ys, Forall2 P (map Z.of_nat l) ys ->
+              forall i, (i < length l)%nat -> P (Z.of_nat (nth i l 0%nat)) (nth i ys d)).
+  { clear. intros l. induction l as [|a l IH]; intros ys H i Hi; simpl in *; [lia|].
+    inversion H as [|? y ? ys' Hy Hr]; subst. destruct i as [|i']; [exact Hy|]. apply (IH ys' Hr i'). lia. }
+  specialize (G _ _ H (Z.to_nat o)). rewrite seq_length in G.
+  specialize (G ltac:(lia)). rewrite seq_nth in G by lia. simpl in G. rewrite Z2Nat.id in G by lia. exact G.
+Qed.
+
+Definition eff_dims (sh rd0 : list Z) : list Z := match rd0 with [] => zrange (zlen sh) | _ => rd0 end.
+
+Theorem t_reduce_spec {A} (f : A -> A -> A) (d : A) rd0 (t r : tensor A) :
+  t_reduce f d rd0 t = Ok r ->
+  let rd := eff_dims (shape t) rd0 in
+  shape r = red_shape (shape t) rd /\
+  forall o, 0 <= o < prodZ (red_shape (shape t) rd) ->
+    exists j0 js, members (shape t) rd o = j0 :: js /\
+      zget (data r) o d = fold_left f (map (fun j => zget (data t) j d) js) (zget (data t) j0 d).
+Proof.
+  unfold t_reduce, eff_dims.
+  set (rd := match rd0 with [] => zrange (zlen (shape t)) | _ :: _ => rd0 end). intros H.
+  destruct (mmap _ (zrange (prodZ (red_shape (shape t) rd)))) as [cells|] eqn:E; simpl in H; [|discriminate].
+  injection H as <-. split; [reflexivity|]. intros o Ho. cbn [data].
+  pose proof (Forall2_zget _ _ _ d (mmap_ok _ _ _ E) o Ho) as Hc. cbv beta in Hc.
+  unfold fold1 in Hc. destruct (members (shape t) rd o) as [|j0 js] eqn:Em; simpl in Hc; [discriminate|].
+  injection Hc as Hc. exists j0, js. split; [reflexivity|]. symmetry. exact Hc.
+Qed.
+
+(* the broadcast partner of element j is the reduction cell j projects onto *)
+Lemma mapi_from_length {A B} (f : Z -> A -> B) k l : length (mapi_from f k l) = length l.
+Proof. revert k. induction l; intros; simpl; auto. Qed.
+
+Lemma bidx_red_shape_from (sh idx rd : list Z) k :
+  in_bounds sh idx ->
+  bidx (mapi_from (fun k d => if zmem k rd then 1 else d) k sh) idx
+  = mapi_from (fun k i => if zmem k rd then 0 else i) k idx.
+Proof.
+  intros H. revert k. induction H as [|d ds i is_ Hi Hib IH]; intros k; [reflexivity|].
+  cbn [mapi_from]. unfold bidx in *. cbn [map2]. rewrite IH. f_equal.
+  destruct (zmem k rd); [reflexivity|]. destruct (d =? 1) eqn:E; [|reflexivity].
+  apply Z.eqb_eq in E. lia.
+Qed.
+
+Theorem sidx_eq_proj (sh rd : list Z) j :
+  pos_dims sh -> 0 <= j < prodZ sh -> ravel (red_shape sh rd) (bidx (red_shape sh rd) (unravel sh j)) = proj sh rd j.
+Proof.
+  intros Hp Hj. unfold proj, red_shape, mapi.
+  rewrite (bidx_red_shape_from sh (unravel sh j) rd 0 (unravel_in_bounds _ _ Hp Hj)). reflexivity.
+Qed.
+
+Lemma In_members sh rd j : 0 <= j < prodZ sh -> In j (members sh rd (proj sh rd j)).
+Proof.
+  intros Hj. unfold members. apply filter_In. split; [apply In_zrange; exact Hj | apply Z.eqb_refl].
+Qed.
+
+Lemma Forall2_len {A B} (P : A -> B -> Prop) l1 l2 : Forall2 P l1 l2 -> length l1 = length l2.
+Proof. induction 1; simpl; auto. Qed.
+
+Lemma t_reduce_length {A} (f : A -> A -> A) d rd0 (t r : tensor A) :
+  t_reduce f d rd0 t = Ok r -> zlen (data r) = Z.max 0 (prodZ (shape r)).
+Proof.
+  unfold t_reduce. intros H.
+  destruct (mmap _ _) as [cells|] eqn:Em in H; cbn [bind] in H; [|discriminate H].
+  injection H as <-. cbn [data shape].
+  pose proof (Forall2_len _ _ _ (mmap_ok _ _ _ Em)) as HF. rewrite zrange_length in HF.
+  change (zlen cells) with (Z.of_nat (length cells)). revert HF.
+  generalize (prodZ (red_shape (shape t) match rd0 with [] => zrange (zlen (shape t)) | _ :: _ => rd0 end)).
+  intros n HF. rewrite <- HF.
+  destruct (Z.le_gt_cases 0 n) as [Hn|Hn].
+  - rewrite Z.max_r by exact Hn. apply Z2Nat.id. exact Hn.
+  - rewrite Z.max_l by lia. destruct n; simpl; lia.
+Qed.
+
+Lemma proj_in_bounds_from (sh idx rd : list Z) k :
+  in_bounds sh idx ->
+  in_bounds (mapi_from (fun k d => if zmem k rd then 1 else d) k sh)
+            (mapi_from (fun k i => if zmem k rd then 0 else i) k idx).
+Proof.
+  intros H. revert k. induction H as [|d ds i is_ Hi Hib IH]; intros k; cbn [mapi_from]; constructor.
+  - destruct (zmem k rd); lia.
+  - apply IH.
+Qed.
+
+Lemma proj_range sh rd j : pos_dims sh -> 0 <= j < prodZ sh -> 0 <= proj sh rd j < prodZ (red_shape sh rd).
+Proof.
+  intros Hp Hj. unfold proj, red_shape, mapi. apply ravel_bounds.
+  apply proj_in_bounds_from. apply unravel_in_bounds; assumption.
+Qed.
